@@ -35,6 +35,9 @@ LOOKALIKES = ["", " ", "1", " 1 ", "1.0", "-0", "1e5", "1E400", "null", "None", 
               '{"f0": 1, "f1": "x", "x": 2.5}', '"a\\/b"', '"\\ud83d\\ude00"', '["\\/", "\\b\\f"]', '{"k\\/": "\\u0041"}', "100000000000000000000000000000", "[100000000000000000000000000000]", "-9223372036854775809"]
 
 
+ODD_CHARS = ["\ufeff", "\u00a0", "\u200b", "\u2028", "\u2003", "\x85", "\x1c", "\x0b", "\x0c", "\ufffe", "\u202e"]
+
+
 def carriers(text):
     b = text.encode("utf8")
     return [("str", text), ("bytes", b), ("bytearray", bytearray(b)), ("memoryview", memoryview(b)), ("memoryview-rw", memoryview(bytearray(b)))]
@@ -174,6 +177,11 @@ def run_case(sh, i, plan):
             T, tsrc = spec.t, spec.src
             facts = U.facts(spec)
             strings = [rng.choice(LOOKALIKES) for _ in range(4)]
+            # the same texts behind / in front of characters a decoder might drop or a stripper might remove (BOM, NBSP, zero-width and
+            # separator characters): they are part of the text in every carrier alike
+            odd = rng.choice(ODD_CHARS)
+            strings.append(odd + rng.choice(LOOKALIKES))
+            strings.append(rng.choice(LOOKALIKES) + odd)
             for _ in range(plan["values"]):
                 v = vg.value(spec)
                 try:
@@ -216,7 +224,7 @@ def run_case(sh, i, plan):
             if i % 60 == 0:
                 sh.sample({"type": tsrc, "strings": [short(s, 60) for s in strings[:5]]})
         check_nontext(sh, rng)
-        for s in rng.sample(LOOKALIKES, 6):
+        for s in rng.sample(LOOKALIKES, 6) + [rng.choice(ODD_CHARS) + rng.choice(LOOKALIKES), rng.choice(LOOKALIKES) + rng.choice(ODD_CHARS)]:
             check_load(sh, s)
     finally:
         prog.drop()
